@@ -3,75 +3,110 @@ import CollectionsC.Proofs.HashTableNamed
 /-! # C06 (hash table / hash set part) — memory safety and leak freedom
 
 `Mem.fault` is set by a bucket access outside the allocated slots, by following a dangling entry
-pointer, or by a release with nothing live.  `Mem.live` counts the blocks owned through the
-configured triple; a table owns `size + 2` blocks (header, bucket array, one per entry), a set
-`size + 3`.  All statements hold for every hash function, threshold function, key and allocator
-schedule.  The hash API has no `destroy_cb`/`remove_all_cb`; its callbacks are `foreach_key/value`. -/
+pointer, or by a release with nothing owned.  `liveOf m tr` counts the blocks owned through the
+allocator triple `tr`; a table owns `size + 2` blocks of its triple (header, bucket array, one per
+entry), a set `size + 3`.  All statements hold for every hash function, threshold function, key,
+allocator schedule and for both triples (configured allocator, C library).  The ledger precondition
+`size + 2 ≤ liveOf m t.triple` is established by the constructor and re-established by every
+operation (`owned_preserved`).  The hash API has no `destroy_cb`/`remove_all_cb`; its callbacks are
+`foreach_key/value`. -/
 set_option maxHeartbeats 800000
 namespace CC.Properties.C06Hash
 open CC CC.HT CC.Spec
 open CC.Spec.Map (Op Out)
 
 /-- (a) no call faults -/
-theorem step_nofault (c : HCfg) (t : HashTable) (op : Op) (m : Mem) (h : t.Inv c) (hl : t.size + 2 ≤ m.live) :
+theorem step_nofault (c : HCfg) (t : HashTable) (op : Op) (m : Mem) (h : t.Inv c) (hl : t.size + 2 ≤ liveOf m t.triple) :
     (t.step c op m).2.2.fault = m.fault :=
   (C02.step_refines c t op m t.abs h hl (List.Perm.refl _)).2.2.2.2
 
 /-- … and no history does, from any state satisfying the invariant -/
-theorem history_nofault (c : HCfg) (ops : List Op) (t : HashTable) (m : Mem) (h : t.Inv c) (hl : t.size + 2 ≤ m.live) :
+theorem history_nofault (c : HCfg) (ops : List Op) (t : HashTable) (m : Mem) (h : t.Inv c) (hl : t.size + 2 ≤ liveOf m t.triple) :
     (t.run c ops m).2.2.2.fault = m.fault ∧ (t.run c ops m).2.2.1.Inv c :=
   ⟨(C02.history_refines c ops t m t.abs h hl (List.Perm.refl _)).2.2.2.2,
    (C02.history_refines c ops t m t.abs h hl (List.Perm.refl _)).2.2.1⟩
 
-/-- (b) per call the change of `live` is the change in the number of blocks the table owns -/
-theorem step_ledger (c : HCfg) (t : HashTable) (op : Op) (m : Mem) (h : t.Inv c) (hl : t.size + 2 ≤ m.live) :
-    (t.step c op m).2.2.live + (t.size + 2) = m.live + ((t.step c op m).2.1.size + 2) := by
+/-- (b) per call the change of the owned-block count is the change in the number of blocks the
+table owns -/
+theorem step_ledger (c : HCfg) (t : HashTable) (op : Op) (m : Mem) (h : t.Inv c) (hl : t.size + 2 ≤ liveOf m t.triple) :
+    liveOf (t.step c op m).2.2 t.triple + (t.size + 2) = liveOf m t.triple + ((t.step c op m).2.1.size + 2) := by
   have := (C02.step_refines c t op m t.abs h hl (List.Perm.refl _)).2.2.2.1
   omega
 
-theorem history_ledger (c : HCfg) (ops : List Op) (t : HashTable) (m : Mem) (h : t.Inv c) (hl : t.size + 2 ≤ m.live) :
-    (t.run c ops m).2.2.2.live + (t.size + 2) = m.live + ((t.run c ops m).2.2.1.size + 2) := by
+theorem history_ledger (c : HCfg) (ops : List Op) (t : HashTable) (m : Mem) (h : t.Inv c) (hl : t.size + 2 ≤ liveOf m t.triple) :
+    liveOf (t.run c ops m).2.2.2 t.triple + (t.size + 2) = liveOf m t.triple + ((t.run c ops m).2.2.1.size + 2) := by
   have := (C02.history_refines c ops t m t.abs h hl (List.Perm.refl _)).2.2.2.1
   omega
 
+/-- the ledger precondition is an invariant of histories: it never has to be re-assumed -/
+theorem owned_preserved (c : HCfg) (ops : List Op) (t : HashTable) (m : Mem) (h : t.Inv c) (hl : t.size + 2 ≤ liveOf m t.triple) :
+    (t.run c ops m).2.2.1.size + 2 ≤ liveOf (t.run c ops m).2.2.2 (t.run c ops m).2.2.1.triple :=
+  C02.history_keeps_owned c ops t m h hl
+
 /-- `remove_all` releases exactly one block per entry and leaves an empty table of the same capacity -/
-theorem remove_all_ledger (c : HCfg) (t : HashTable) (m : Mem) (h : t.Inv c) (hl : t.size ≤ m.live) :
-    (t.removeAll m).2.live = m.live - t.size ∧ (t.removeAll m).2.fault = m.fault ∧
+theorem remove_all_ledger (c : HCfg) (t : HashTable) (m : Mem) (h : t.Inv c) (hl : t.size ≤ liveOf m t.triple) :
+    liveOf (t.removeAll m).2 t.triple = liveOf m t.triple - t.size ∧ (t.removeAll m).2.fault = m.fault ∧
     (t.removeAll m).1.abs = [] ∧ (t.removeAll m).1.size = 0 ∧ (t.removeAll m).1.Inv c := by
-  obtain ⟨r1, r2, r3, _, _, r6, r7⟩ := HashTable.removeAll_spec c t m h hl
+  obtain ⟨r1, r2, r3, _, _, r6, r7, _⟩ := HashTable.removeAll_spec c t m h hl
   exact ⟨r6, r7, r2, r3, r1⟩
 
 /-- `destroy` releases every block the table owns -/
-theorem destroy_ledger (c : HCfg) (t : HashTable) (m : Mem) (h : t.Inv c) (hl : t.size + 2 ≤ m.live) :
-    (t.destroy m).live = m.live - (t.size + 2) ∧ (t.destroy m).fault = m.fault :=
+theorem destroy_ledger (c : HCfg) (t : HashTable) (m : Mem) (h : t.Inv c) (hl : t.size + 2 ≤ liveOf m t.triple) :
+    liveOf (t.destroy m) t.triple = liveOf m t.triple - (t.size + 2) ∧ (t.destroy m).fault = m.fault :=
   HashTable.destroy_spec c t m h hl
 
-/-- **`new … any history … destroy` returns `live` to its initial value**, for every refusal
-schedule, and nothing faults -/
-theorem destroy_releases_all (c : HCfg) (cap : Nat) (m0 : Mem) (t0 : HashTable)
-    (hnew : (HashTable.new c cap m0).2.1 = some t0) (ops : List Op) :
-    ((t0.run c ops (HashTable.new c cap m0).2.2).2.2.1.destroy (t0.run c ops (HashTable.new c cap m0).2.2).2.2.2).live = m0.live ∧
-    ((t0.run c ops (HashTable.new c cap m0).2.2).2.2.1.destroy (t0.run c ops (HashTable.new c cap m0).2.2).2.2.2).fault = m0.fault :=
-  C02.lifecycle_leak_free c cap m0 t0 hnew ops
+/-- **`new … any history … destroy` returns the owned-block count to its initial value**, for every
+refusal schedule and both triples, and nothing faults -/
+theorem destroy_releases_all (c : HCfg) (cap : Nat) (tr : Triple) (m0 : Mem) (t0 : HashTable)
+    (hnew : (HashTable.new c cap tr m0).2.1 = some t0) (ops : List Op) :
+    liveOf ((t0.run c ops (HashTable.new c cap tr m0).2.2).2.2.1.destroy (t0.run c ops (HashTable.new c cap tr m0).2.2).2.2.2) tr = liveOf m0 tr ∧
+    ((t0.run c ops (HashTable.new c cap tr m0).2.2).2.2.1.destroy (t0.run c ops (HashTable.new c cap tr m0).2.2).2.2.2).fault = m0.fault :=
+  C02.lifecycle_leak_free c cap tr m0 t0 hnew ops
+
+/-- … also with an iterator session (any program of `next`/`remove`) between two histories -/
+theorem destroy_releases_all_mixed (c : HCfg) (cap : Nat) (tr : Triple) (m0 : Mem) (t0 : HashTable)
+    (hnew : (HashTable.new c cap tr m0).2.1 = some t0) (ops₁ : List Op) (prog : List HashTable.IterOp) :
+    let t₁ := (t0.run c ops₁ (HashTable.new c cap tr m0).2.2).2.2.1
+    let m₁ := (t0.run c ops₁ (HashTable.new c cap tr m0).2.2).2.2.2
+    let r := HashTable.iterRun c prog t₁ (t₁.iterInit m₁).1 m₁
+    liveOf (r.2.1.destroy r.2.2.2) tr = liveOf m0 tr ∧ (r.2.1.destroy r.2.2.2).fault = m0.fault := by
+  dsimp only
+  obtain ⟨_, _, n3, n4, _⟩ := HashTable.new_spec c cap tr m0
+  obtain ⟨_, q2, q3, q4, _, q6, q7⟩ := n3 t0 hnew
+  have hl0 : t0.size + 2 ≤ liveOf (HashTable.new c cap tr m0).2.2 t0.triple := by rw [q7]; omega
+  obtain ⟨_, _, a3, a4, a5⟩ := C02.history_refines c ops₁ t0 _ t0.abs q2 hl0 (List.Perm.refl _)
+  have hl₁ := C02.history_keeps_owned c ops₁ t0 _ q2 hl0
+  have hT₁ := HashTable.run_triple c ops₁ t0 (HashTable.new c cap tr m0).2.2
+  obtain ⟨_, _, b3, _, b5, b6, b7⟩ := HashTable.iterRun_refines c prog _ _ _ _ a3
+    (HashTable.iterInit_curRel c _ (t0.run c ops₁ (HashTable.new c cap tr m0).2.2).2.2.2 a3) hl₁
+  obtain ⟨d1, d2⟩ := HashTable.destroy_spec c _
+    (HashTable.iterRun c prog (t0.run c ops₁ (HashTable.new c cap tr m0).2.2).2.2.1
+      ((t0.run c ops₁ (HashTable.new c cap tr m0).2.2).2.2.1.iterInit (t0.run c ops₁ (HashTable.new c cap tr m0).2.2).2.2.2).1
+      (t0.run c ops₁ (HashTable.new c cap tr m0).2.2).2.2.2).2.2.2 b3 (by rw [b7]; omega)
+  rw [b7] at d1
+  have hTT := hT₁.trans q7
+  rw [hTT] at d1 b6 hl₁
+  rw [q7] at a4
+  exact ⟨by omega, by rw [d2, b5, a5]; exact n4⟩
 
 /-- a refused constructor leaks nothing -/
-theorem new_refused_no_leak (c : HCfg) (cap : Nat) (m : Mem) (h : (HashTable.new c cap m).1 ≠ .ok) :
-    (HashTable.new c cap m).2.1 = none ∧ (HashTable.new c cap m).2.2.live = m.live ∧
-    (HashTable.new c cap m).2.2.fault = m.fault :=
-  ⟨((HashTable.new_spec c cap m).2.1 h).1, ((HashTable.new_spec c cap m).2.1 h).2, (HashTable.new_spec c cap m).2.2.2.1⟩
+theorem new_refused_no_leak (c : HCfg) (cap : Nat) (tr : Triple) (m : Mem) (h : (HashTable.new c cap tr m).1 ≠ .ok) :
+    (HashTable.new c cap tr m).2.1 = none ∧ liveOf (HashTable.new c cap tr m).2.2 tr = liveOf m tr ∧
+    (HashTable.new c cap tr m).2.2.fault = m.fault :=
+  ⟨((HashTable.new_spec c cap tr m).2.1 h).1, ((HashTable.new_spec c cap tr m).2.1 h).2, (HashTable.new_spec c cap tr m).2.2.2.1⟩
 
 /-- `get_keys`/`get_values`: no fault; the ledger grows by the two blocks of the returned array or
 not at all -/
 theorem enumeration_nofault_ledger (c : HCfg) (t : HashTable) (m : Mem) (h : t.Inv c) (hpos : 0 < t.size)
-    (hbig : 3 * t.size ≤ Gen.CC_MAX_ELEMENTS) :
+    (hbig : 8 * t.size ≤ Gen.CC_MAX_ELEMENTS) :
     (t.getKeys c m).2.2.fault = m.fault ∧ (t.getValues c m).2.2.fault = m.fault ∧
-    ((t.getKeys c m).2.1 = none → (t.getKeys c m).2.2.live = m.live) ∧
-    (∀ a, (t.getKeys c m).2.1 = some a → (t.getKeys c m).2.2.live = m.live + 2) := by
+    ((t.getKeys c m).2.1 = none → liveOf (t.getKeys c m).2.2 t.triple = liveOf m t.triple) ∧
+    (∀ a, (t.getKeys c m).2.1 = some a → liveOf (t.getKeys c m).2.2 t.triple = liveOf m t.triple + 2) := by
   have hw := HashTable.walk_eq t h.2.1
   have hsz := h.2.2.1
   have k := (HashTable.collect_spec c t (t.walk.map (fun e => encKey e.key)) m h (by rw [hw, List.length_map]; omega) hbig).2 hpos
   have v := (HashTable.collect_spec c t (t.walk.map (·.value)) m h (by rw [hw, List.length_map]; omega) hbig).2 hpos
-  refine ⟨k.2.2.2.1, v.2.2.2.1, ?_, fun a ha => (k.2.2.1 a ha).2.2.2.2⟩
+  refine ⟨k.2.2.2.1, v.2.2.2.1, ?_, fun a ha => (k.2.2.1 a ha).2.2.2.2.1⟩
   intro hn
   apply (k.2.1 ?_).2
   intro hok
@@ -79,15 +114,16 @@ theorem enumeration_nofault_ledger (c : HCfg) (t : HashTable) (m : Mem) (h : t.I
   unfold HashTable.getKeys at hn
   rw [hn] at this; cases this
 
-/-- iterator programs: no fault, and the ledger shrinks by exactly the removed entries -/
-theorem iter_nofault_ledger (c : HCfg) (t : HashTable) (m : Mem) (bs : List Bool) (h : t.Inv c) (hl : t.size + 2 ≤ m.live) :
-    (HashTable.drive c bs t (t.iterInit m).1 m).2.2.2.fault = m.fault ∧
-    (HashTable.drive c bs t (t.iterInit m).1 m).2.2.2.live + (HashTable.removedKeys t.buckets.flatten bs).length = m.live ∧
-    (HashTable.drive c bs t (t.iterInit m).1 m).2.1.size + (HashTable.removedKeys t.buckets.flatten bs).length = t.size ∧
+/-- iterator programs (any sequence of `next`/`remove`): no fault, and the ledger shrinks by
+exactly the removed entries -/
+theorem iter_nofault_ledger (c : HCfg) (t : HashTable) (m : Mem) (prog : List HashTable.IterOp) (h : t.Inv c)
+    (hl : t.size + 2 ≤ liveOf m t.triple) :
+    (HashTable.iterRun c prog t (t.iterInit m).1 m).2.2.2.fault = m.fault ∧
+    liveOf (HashTable.iterRun c prog t (t.iterInit m).1 m).2.2.2 t.triple + t.size =
+      liveOf m t.triple + (HashTable.iterRun c prog t (t.iterInit m).1 m).2.1.size ∧
     (t.iterInit m).2 = m := by
-  obtain ⟨i1, i2, _⟩ := HashTable.iterInit_spec c t m h
-  obtain ⟨_, _, _, _, d5, d6, d7⟩ := HashTable.drive_spec c bs t (t.iterInit m).1 m t.buckets.flatten h i1 h.2.2.2.2.1 hl
-  exact ⟨d5, d6, d7, i2⟩
+  obtain ⟨_, _, _, _, b5, b6, _⟩ := HashTable.iterRun_refines c prog t (t.iterInit m).1 m _ h (HashTable.iterInit_curRel c t m h) hl
+  exact ⟨b5, b6, (HashTable.iterInit_spec c t m h).2.1⟩
 
 /-- (c) the `foreach` callbacks receive every held key / value exactly once -/
 theorem foreach_each_once (c : HCfg) (t : HashTable) (m : Mem) (h : t.Inv c) :
@@ -98,44 +134,49 @@ theorem foreach_each_once (c : HCfg) (t : HashTable) (m : Mem) (h : t.Inv c) :
 
 /-! ## hash set -/
 
-theorem set_step_nofault (c : HCfg) (s : HashSet) (op : Set.Op) (m : Mem) (h : s.Inv c) (hl : s.size + 3 ≤ m.live) :
+theorem set_step_nofault (c : HCfg) (s : HashSet) (op : Set.Op) (m : Mem) (h : s.Inv c) (hl : s.size + 3 ≤ liveOf m s.triple) :
     (s.step c op m).2.2.fault = m.fault :=
   (C02.set_step_history c s op m s.abs h hl (List.Perm.refl _)).2.2.2.2
 
-theorem set_step_ledger (c : HCfg) (s : HashSet) (op : Set.Op) (m : Mem) (h : s.Inv c) (hl : s.size + 3 ≤ m.live) :
-    (s.step c op m).2.2.live + (s.size + 3) = m.live + ((s.step c op m).2.1.size + 3) := by
+theorem set_step_ledger (c : HCfg) (s : HashSet) (op : Set.Op) (m : Mem) (h : s.Inv c) (hl : s.size + 3 ≤ liveOf m s.triple) :
+    liveOf (s.step c op m).2.2 s.triple + (s.size + 3) = liveOf m s.triple + ((s.step c op m).2.1.size + 3) := by
   have := (C02.set_step_history c s op m s.abs h hl (List.Perm.refl _)).2.2.2.1
   omega
 
-theorem set_history_nofault (c : HCfg) (ops : List Set.Op) (s : HashSet) (m : Mem) (h : s.Inv c) (hl : s.size + 3 ≤ m.live) :
+theorem set_history_nofault (c : HCfg) (ops : List Set.Op) (s : HashSet) (m : Mem) (h : s.Inv c) (hl : s.size + 3 ≤ liveOf m s.triple) :
     (s.run c ops m).2.2.2.fault = m.fault ∧
-    (s.run c ops m).2.2.2.live + (s.size + 3) = m.live + ((s.run c ops m).2.2.1.size + 3) := by
+    liveOf (s.run c ops m).2.2.2 s.triple + (s.size + 3) = liveOf m s.triple + ((s.run c ops m).2.2.1.size + 3) := by
   obtain ⟨_, _, _, r4, r5⟩ := C02.set_history_refines c ops s m s.abs h hl (List.Perm.refl _)
   exact ⟨r5, by omega⟩
 
-theorem set_destroy_ledger (c : HCfg) (s : HashSet) (m : Mem) (h : s.Inv c) (hl : s.size + 3 ≤ m.live) :
-    (s.destroy m).live = m.live - (s.size + 3) ∧ (s.destroy m).fault = m.fault :=
+theorem set_destroy_ledger (c : HCfg) (s : HashSet) (m : Mem) (h : s.Inv c) (hl : s.size + 3 ≤ liveOf m s.triple) :
+    liveOf (s.destroy m) s.triple = liveOf m s.triple - (s.size + 3) ∧ (s.destroy m).fault = m.fault :=
   HashSet.destroy_spec c s m h hl
 
 /-- set life cycle: header, table header, bucket array and every entry are released exactly once -/
-theorem set_destroy_releases_all (c : HCfg) (cap : Nat) (m0 : Mem) (s0 : HashSet)
-    (hnew : (HashSet.new c cap m0).2.1 = some s0) (ops : List Set.Op) :
-    ((s0.run c ops (HashSet.new c cap m0).2.2).2.2.1.destroy (s0.run c ops (HashSet.new c cap m0).2.2).2.2.2).live = m0.live ∧
-    ((s0.run c ops (HashSet.new c cap m0).2.2).2.2.1.destroy (s0.run c ops (HashSet.new c cap m0).2.2).2.2.2).fault = m0.fault := by
-  obtain ⟨_, _, n3, n4⟩ := HashSet.new_spec c cap m0
-  obtain ⟨_, q2, q3, q4⟩ := n3 s0 hnew
+theorem set_destroy_releases_all (c : HCfg) (cap : Nat) (tr : Triple) (m0 : Mem) (s0 : HashSet)
+    (hnew : (HashSet.new c cap tr m0).2.1 = some s0) (ops : List Set.Op) :
+    liveOf ((s0.run c ops (HashSet.new c cap tr m0).2.2).2.2.1.destroy (s0.run c ops (HashSet.new c cap tr m0).2.2).2.2.2) tr = liveOf m0 tr ∧
+    ((s0.run c ops (HashSet.new c cap tr m0).2.2).2.2.1.destroy (s0.run c ops (HashSet.new c cap tr m0).2.2).2.2.2).fault = m0.fault := by
+  obtain ⟨_, _, n3, n4⟩ := HashSet.new_spec c cap tr m0
+  obtain ⟨_, q2, q3, q4, q5⟩ := n3 s0 hnew
   have hsz : s0.size = 0 := by
     have := (C02.set_wf c s0 q2).2
     rw [q3] at this; simpa using this
-  obtain ⟨_, _, r3, r4, r5⟩ := C02.set_history_refines c ops s0 (HashSet.new c cap m0).2.2 [] q2 (by omega) (by rw [q3])
-  obtain ⟨d1, d2⟩ := HashSet.destroy_spec c _ (s0.run c ops (HashSet.new c cap m0).2.2).2.2.2 r3 (by omega)
+  obtain ⟨_, _, r3, r4, r5⟩ := C02.set_history_refines c ops s0 (HashSet.new c cap tr m0).2.2 [] q2 (by rw [q5]; omega) (by rw [q3])
+  have hT := (HashSet.run_triple c ops s0 (HashSet.new c cap tr m0).2.2).1
+  rw [q5] at r4 hT
+  obtain ⟨d1, d2⟩ := HashSet.destroy_spec c _ (s0.run c ops (HashSet.new c cap tr m0).2.2).2.2.2 r3 (by rw [hT]; omega)
+  rw [hT] at d1
   exact ⟨by omega, by rw [d2, r5]; exact n4⟩
 
-theorem set_new_refused_no_leak (c : HCfg) (cap : Nat) (m : Mem) (h : (HashSet.new c cap m).1 ≠ .ok) :
-    (HashSet.new c cap m).2.1 = none ∧ (HashSet.new c cap m).2.2.live = m.live ∧ (HashSet.new c cap m).2.2.fault = m.fault :=
-  ⟨((HashSet.new_spec c cap m).2.1 h).1, ((HashSet.new_spec c cap m).2.1 h).2, (HashSet.new_spec c cap m).2.2.2⟩
+theorem set_new_refused_no_leak (c : HCfg) (cap : Nat) (tr : Triple) (m : Mem) (h : (HashSet.new c cap tr m).1 ≠ .ok) :
+    (HashSet.new c cap tr m).2.1 = none ∧ liveOf (HashSet.new c cap tr m).2.2 tr = liveOf m tr ∧ (HashSet.new c cap tr m).2.2.fault = m.fault :=
+  ⟨((HashSet.new_spec c cap tr m).2.1 h).1, ((HashSet.new_spec c cap tr m).2.1 h).2, (HashSet.new_spec c cap tr m).2.2.2⟩
 
-/-- non-vacuity: a refused third allocation during the set constructor leaves `live` where it was -/
-example : (HashSet.new ⟨fun k => k, fun c => c, fun c => c * 2⟩ 4 { live := 7, sched := [false, false, true] }).2.2.live = 7 := by decide
+/-- non-vacuity: a refused third allocation during the set constructor leaves `live` where it was;
+a table on the C library owns its blocks there -/
+example : (HashSet.new ⟨fun k => k, fun c => c, fun c => c * 2⟩ 4 .conf { live := 7, sched := [false, false, true] }).2.2.live = 7 := by decide
+example : (HashTable.new ⟨fun k => k, fun c => c, fun c => c * 2⟩ 4 .libc { live := 7, sched := [true] }).2.2.liveLibc = 2 := by decide
 
 end CC.Properties.C06Hash
